@@ -5,6 +5,7 @@ package main
 
 import (
 	"fmt"
+	"sort"
 	"os"
 	"go/ast"
 	"go/token"
@@ -1055,4 +1056,104 @@ func RunIterFreshControl(r *Report) {
 			}
 		}
 	})
+}
+
+// RunFlagClass: OpenType chapter 2, lookupFlag bit enumeration, transcribed:
+// IGNORE_BASE_GLYPHS (0x0002) skips glyphs of GDEF class 1, IGNORE_LIGATURES
+// (0x0004) class 2, IGNORE_MARKS (0x0008) class 3; USE_MARK_FILTERING_SET
+// (0x0010) and the mark attachment type (0xFF00) filter class 3 only.  In
+// (*keepFunc).Keep every `return false` is reached under one glyph class and
+// one flag test; the set of (class, flag) pairs found must be exactly this
+// table: a missing pair means the flag has no effect, a foreign pair means a
+// flag skips glyphs of the wrong class.
+func RunFlagClass(w *World, r *Report) {
+	r.Rule("flagclass: the (GDEF glyph class, lookup flag mask) pairs under which (*keepFunc).Keep returns false are exactly (1,0x0002) (2,0x0004) (3,0x0008) (3,0x0010) (3,0xFF00) — the lookupFlag table of the OpenType specification")
+	fn := w.Func("(*opentype/gtab.keepFunc).Keep")
+	if fn == nil {
+		r.Fatal("(*gtab.keepFunc).Keep does not resolve")
+		return
+	}
+	want := map[[2]int64]bool{{1, 0x2}: true, {2, 0x4}: true, {3, 0x8}: true, {3, 0x10}: true, {3, 0xFF00}: true}
+	got := map[[2]int64]token.Pos{}
+	for _, b := range fn.Blocks {
+		rt, ok := b.Instrs[len(b.Instrs)-1].(*ssa.Return)
+		if !ok || len(rt.Results) != 1 {
+			continue
+		}
+		k, ok := rt.Results[0].(*ssa.Const)
+		if !ok || k.Value == nil || k.Value.String() != "false" {
+			continue
+		}
+		class, mask := int64(-1), int64(-1)
+		for _, g := range guardsOf(b) {
+			bo, ok := g.cond.(*ssa.BinOp)
+			if !ok {
+				continue
+			}
+			// class test: value loaded from a field GlyphClass == constant, taken
+			if bo.Op == token.EQL && g.then {
+				if c, isC := bconstInt(bo.Y); isC {
+					for v := range backSlice(bo.X) {
+						if fa, ok := v.(*ssa.FieldAddr); ok && fieldName(fa) == "GlyphClass" {
+							class = c
+						}
+					}
+				}
+			}
+			// flag test: flags & M != 0, taken; the innermost one decides
+			if bo.Op == token.NEQ && g.then && mask < 0 {
+				if and, ok := bo.X.(*ssa.BinOp); ok && and.Op == token.AND {
+					if c, isC := bconstInt(and.Y); isC {
+						mask = c
+					}
+				} else if ph, ok := bo.X.(*ssa.Phi); ok {
+					_ = ph
+				}
+				// m := flags & MASK; m != 0
+				if mask < 0 {
+					for v := range backSlice(bo.X) {
+						if and, ok := v.(*ssa.BinOp); ok && and.Op == token.AND {
+							if c, isC := bconstInt(and.Y); isC {
+								mask = c
+							}
+						}
+					}
+				}
+			}
+		}
+		if class >= 0 && mask >= 0 {
+			got[[2]int64{class, mask}] = rt.Pos()
+		} else {
+			key := r.MkKey("flagclass", fnName(fn), "return false")
+			r.Fail("flagclass", key, w.Pos(rt.Pos()), "a glyph is skipped on a path that is not decided by one glyph class test and one lookup-flag test", nil)
+		}
+	}
+	var pairs [][2]int64
+	for p := range want {
+		pairs = append(pairs, p)
+	}
+	for p := range got {
+		if !want[p] {
+			pairs = append(pairs, p)
+		}
+	}
+	sort.Slice(pairs, func(i, j int) bool {
+		if pairs[i][0] != pairs[j][0] {
+			return pairs[i][0] < pairs[j][0]
+		}
+		return pairs[i][1] < pairs[j][1]
+	})
+	for _, p := range pairs {
+		key := r.MkKey("flagclass", fnName(fn), fmt.Sprintf("class %d, flag %#x", p[0], p[1]))
+		pos, have := got[p]
+		switch {
+		case want[p] && have:
+			r.OK("flagclass", key, w.Pos(pos), "skipped as the specification says")
+		case want[p]:
+			r.Fail("flagclass", key, w.Pos(fn.Pos()), fmt.Sprintf("no path skips glyphs of GDEF class %d under lookup flag %#x: the flag has no effect", p[0], p[1]), nil)
+		default:
+			r.Fail("flagclass", key, w.Pos(pos), fmt.Sprintf("glyphs of GDEF class %d are skipped under lookup flag %#x, which the specification assigns to another class", p[0], p[1]), nil)
+		}
+	}
+	r.Floor("flagclass", 5)
 }
